@@ -7,7 +7,7 @@ REPO_SRC = os.environ.get('VX_REPO_SRC', '/repo/src')
 
 class Src:
     """include /repo/src/<name>: every top-level item except `use`, test modules and the ones dropped here"""
-    def __init__(self, name, fns=(), drop=(), drop_fns=(), item_attr=None, keep_fns=None, header='', footer='', props=(), regex_rules=(), keep_items=None, dyn_calls=False, loader=None, pre=None):
+    def __init__(self, name, fns=(), drop=(), drop_fns=(), item_attr=None, keep_fns=None, header='', footer='', props=(), regex_rules=(), keep_items=None, dyn_calls=False, loader=None, pre=None, string_concat=False):
         self.name = name
         self.fns = {s.key: s for s in fns}
         self.drop = set(drop)              # item names ('<X as fmt::Display>', 'create_context', ...)
@@ -19,6 +19,7 @@ class Src:
         self.regex_rules = list(regex_rules)
         self.loader = loader               # callable(repo_src) -> File (virtual source, e.g. lifted handlers)
         self.pre = pre                     # callable(text, counters) -> text applied before lexing (macro expansion, rule 11)
+        self.string_concat = string_concat # rule 9
         self.dyn_calls = dyn_calls         # rule 7: rewrite applications of handler values to vx_apply(h, (args,))
         self.keep_items = keep_items       # predicate(kind, name) on top-level items (None = keep all)   # (rule_name, pattern, replacement) textual normalisations with counters
 
@@ -135,6 +136,9 @@ def generate(unit, repo_src=None, modes=None):
                 if t[i].s == '_' and t[i + 1].s == ':' and t[i - 1].s in ('(', ','):
                     ed.replace(t[i].a, t[i].b, '_unused%d' % n_un); n_un += 1
                     c['rule5_underscore_param'] = c.get('rule5_underscore_param', 0) + 1
+            if sf.string_concat:
+                from .splice import fold_string_concat
+                fold_string_concat(f, fn, ed, c)
             if sf.dyn_calls:
                 from .splice import rewrite_dyn_calls
                 rewrite_dyn_calls(f, fn, ed, c)
